@@ -105,7 +105,7 @@ def _xor_old_overlay(work):
 
 
 seq(prop="C20", lean_targets=["TransportVerif.Props.C20"], pkg="utils/xor", inpkg="xor", run="^TestVerifXor$", component="xor",
-    quick_n=6000, thorough_n=48000,
+    quick_n=6000, thorough_n=12000,
     variants=[dict(files=["xor_h_test.go", "variant_generic_test.go"]),
               dict(files=["xor_h_test.go", "variant_old_test.go"], overlay_fn=_xor_old_overlay)],
     nontrivial=["aliased", "unequal", "words+tail", "dst-short"],
